@@ -19,7 +19,27 @@
 (* here; `small` says that all intermediate integers of the case fit TLC's 32-bit range.        *)
 EXTENDS CylinderDefs, TLC, Json, IOUtils
 
+(* Every event also says HOW the case was handed to the code - the property quantifies over the      *)
+(* configurations, not over their presentation, so the verdict is the same for all of them:           *)
+(*   lay    (ray) layout of the batch the ray was part of, one of RayLayouts;                          *)
+(*   sizes  number type of radius and height, one of SizeTypes;                                        *)
+(*   pass   1 = first evaluation, 2 = the same case evaluated again at the end of the run, after all    *)
+(*          other calls, in another order / layout; `of` is then the line of the first evaluation and   *)
+(*          TLC checks that it really is the same case (clause oracle_replay_is_not_the_same_case).     *)
 Tr == ndJsonDeserialize(IOEnv.TRACE_FILE)
+
+Presentation(e, line) ==
+    IF e.ev = "ray" /\ e.lay \notin RayLayouts THEN "oracle_unknown_layout"
+    ELSE IF e.ev \in {"ray", "quad"} /\ e.sizes \notin SizeTypes THEN "oracle_unknown_size_type"
+    ELSE IF e.pass = 1 THEN (IF e.of = 0 THEN "ok" ELSE "oracle_replay_is_not_the_same_case")
+    ELSE IF e.pass # 2 \/ ~(e.of \in 1..(line - 1)) THEN "oracle_replay_is_not_the_same_case"
+    ELSE LET f == Tr[e.of]
+         IN IF f.ev # e.ev \/ f.pass # 1 \/ f.case # e.case \/ f.small # e.small \/ f.c # e.c
+               THEN "oracle_replay_is_not_the_same_case"
+            ELSE IF e.ev = "ray" /\ (f.s # e.s \/ f.n # e.n \/ f.cls # e.cls) THEN "oracle_replay_is_not_the_same_case"
+            ELSE IF e.ev = "quad" /\ f.kind # e.kind THEN "oracle_replay_is_not_the_same_case"
+            ELSE IF e.ev = "trans" /\ (f.gc # e.gc \/ f.mode # e.mode) THEN "oracle_replay_is_not_the_same_case"
+            ELSE "ok"
 
 VARIABLES l, nbad
 tvars == <<l, nbad>>
@@ -50,6 +70,7 @@ JudgeQuad(e) ==
         ELSE IF ~e.sum_ok THEN "weights_do_not_sum_to_volume"
         ELSE IF ~e.cen_ok THEN "centroid_is_not_centre"
         ELSE IF e.n_mom_bad > 0 THEN "polynomial_moments_wrong"
+        ELSE IF e.n_axial_bad > 0 THEN "axial_moments_wrong"          \* z^2, z^4: 'medium' / 'expensive' only
         ELSE "ok"
 
 SameVec(u, v) == \A i \in 1..3 : u[i] * v[4] = v[i] * u[4]
@@ -67,15 +88,18 @@ JudgeTrans(e) ==
         ELSE IF ~e.inv_ok THEN "transmission_changes_under_rigid_motion"
         ELSE "ok"
 
-Judge(e) == IF e.ev = "ray" THEN JudgeRay(e)
+Judge(e, line) ==
+    IF e.ev \notin {"ray", "quad", "trans"} THEN "unknown_event"
+    ELSE LET p == Presentation(e, line)
+         IN IF p # "ok" THEN p
+            ELSE IF e.ev = "ray" THEN JudgeRay(e)
             ELSE IF e.ev = "quad" THEN JudgeQuad(e)
-            ELSE IF e.ev = "trans" THEN JudgeTrans(e)
-            ELSE "unknown_event"
+            ELSE JudgeTrans(e)
 
 TInit == l = 1 /\ nbad = 0
 TNext == /\ l <= Len(Tr)
          /\ l' = l + 1
-         /\ LET v == Judge(Tr[l]) IN
+         /\ LET v == Judge(Tr[l], l) IN
             /\ nbad' = IF v = "ok" THEN nbad ELSE nbad + 1
             /\ (v = "ok" \/ PrintT(<<"REJECT", l, Tr[l].tid, v>>))
 TSpec == TInit /\ [][TNext]_tvars
